@@ -66,6 +66,17 @@ def dictOpOfJ : J → Option DictOp
   | .arr [.str "popitem"] => some .popitem
   | _ => none
 
+def pkeyOfJ : J → Option PKey
+  | .str k => some (.key k)
+  | .int i => some (.idx i.toNat)
+  | _ => none
+
+/-- `[[key, sub-key-or-index, …], is_insertion, value]` -/
+def pathEntryOfJ : J → Option (String × List PKey × Bool × Val)
+  | .arr [.arr (.str k :: rest), .bool ins, v] => do
+    pure (k, ← rest.mapM pkeyOfJ, ins, ← valOfJ v)
+  | _ => none
+
 def kvsToJ (kvs : List (String × Val)) : J := .arr (kvs.map fun (k, v) => .arr [.str k, valToJ v])
 
 def runList (env : Env) : TList → List ListOp → List J
@@ -75,17 +86,28 @@ def runList (env : Env) : TList → List ListOp → List J
     .obj [("err", errJ e), ("items", .arr (l'.items.map valToJ)), ("conforms", .bool (conformsB env l'))]
       :: runList env l' ops
 
-def runDict (env : Env) (p0 : Bool) : TDict → List (DictOp × Option Bool) → List J
+/-- An operation of a dict / object history: a `DictOp`, or a rebind with (nested) key paths. -/
+inductive AnyOp where
+  | plain (op : DictOp)
+  | paths (ws : List (String × List PKey × Bool × Val))
+
+def runDict (env : Env) (p0 : Bool) : TDict → List (AnyOp × Option Bool) → List J
   | _, [] => []
   | d, (op, scope) :: ops =>
     let p := scope.getD p0
-    let (d', e) := dictStep env p hasMissing d op
+    let (d', e) := match op with
+      | .plain o => dictStep env p hasMissing d o
+      | .paths ws => pathBatch env hasMissing d ws
     .obj [("err", errJ e), ("items", kvsToJ d'.kvs), ("conforms", .bool (conformsDB env true d')),
           ("complete", .bool (conformsDB env false d'))] :: runDict env p0 d' ops
 
-def scopedOpOfJ : J → Option (DictOp × Option Bool)
-  | .arr [op, .null] => (dictOpOfJ op).map fun o => (o, none)
-  | .arr [op, .bool b] => (dictOpOfJ op).map fun o => (o, some b)
+def anyOpOfJ : J → Option AnyOp
+  | .arr [.str "rebind_paths", .arr ws] => (ws.mapM pathEntryOfJ).map .paths
+  | j => (dictOpOfJ j).map .plain
+
+def scopedOpOfJ : J → Option (AnyOp × Option Bool)
+  | .arr [op, .null] => (anyOpOfJ op).map fun o => (o, none)
+  | .arr [op, .bool b] => (anyOpOfJ op).map fun o => (o, some b)
   | _ => none
 
 def handle (j : J) : J :=
